@@ -212,7 +212,89 @@ func c05inputs(thorough bool) []c05input {
 			ins = append(ins, c05input{name: fmt.Sprintf("%s %s/%s", d["type"], en.e, en.k), entry: en.e, kind: en.k, body: d})
 		}
 	}
+	// bare objects with an attribution of their own (every entry must end among the Create's actors)
+	for ai, at := range []interface{}{Bob, L{Alice, rz}, Emb("Person", rz), L{Bob, Emb("Person", rx)}, M{"type": "Mention", "href": rz}, M{"type": "Link", "id": rz, "href": "https://r9.example/decoy"}} {
+		for _, en := range []struct {
+			e string
+			k ap.ActorKind
+		}{{"PostOutbox", ap.Both}, {"Send", ap.Both}, {"PostOutbox", ap.SocialOnly}} {
+			obj := Doc("Note", "", "content", "c", "attributedTo", at, "to", rx, "bcc", L{ry, rz})
+			ins = append(ins, c05input{name: fmt.Sprintf("bare-Note attribution-%d %s/%s", ai, en.e, en.k), entry: en.e, kind: en.k, body: obj, bare: true, nObj: 1})
+		}
+	}
+	// reference spellings: the same inputs with every actor / attribution / addressing reference written
+	// as an embedded actor, as an embedded Mention (href only), or alternately as IRI and as an embedded
+	// Link with id and a decoy href (the oracle compares id sets, so the expectation is unchanged)
+	n0 := len(ins)
+	for i := 0; i < n0; i++ {
+		in := ins[i]
+		step := 5
+		if thorough {
+			step = 2
+		}
+		if i%step != 0 && !strings.Contains(in.name, "attribution-") {
+			continue
+		}
+		mode := 1 + (i/step)%3
+		b := deepCopy(in.body).(map[string]interface{})
+		if !respellRefs(b, mode) {
+			continue
+		}
+		in.body = b
+		in.name += fmt.Sprintf(" spelling=%d", mode)
+		ins = append(ins, in)
+	}
 	return ins
+}
+
+var refProps = []string{"actor", "attributedTo", "to", "bto", "cc", "bcc", "audience"}
+
+// respellRefs rewrites the references held by the actor / attribution / addressing members of an
+// activity and of the objects embedded under 'object'. It reports whether anything changed.
+func respellRefs(doc map[string]interface{}, mode int) bool {
+	changed := false
+	n := 0
+	one := func(v interface{}) interface{} {
+		id, ok := v.(string)
+		if !ok {
+			return v
+		}
+		n++
+		switch mode {
+		case 1:
+			changed = true
+			return M{"type": "Person", "id": id}
+		case 2:
+			changed = true
+			return M{"type": "Mention", "href": id}
+		default:
+			if n%2 == 1 {
+				return v
+			}
+			changed = true
+			return M{"type": "Link", "id": id, "href": "https://r9.example/decoy"}
+		}
+	}
+	var walk func(d map[string]interface{})
+	walk = func(d map[string]interface{}) {
+		for _, p := range refProps {
+			switch x := d[p].(type) {
+			case string:
+				d[p] = one(x)
+			case []interface{}:
+				for i := range x {
+					x[i] = one(x[i])
+				}
+			}
+		}
+		for _, o := range asList(d["object"]) {
+			if om, ok := o.(map[string]interface{}); ok {
+				walk(om)
+			}
+		}
+	}
+	walk(doc)
+	return changed
 }
 
 // checkOutboxRun judges one accepted post: ids, normalisation, storage, outbox, ordering.
